@@ -154,7 +154,17 @@ pub const OPS: &[&str] = &[
     "room_rewrite_user_entry_of_R2",
     "room_add_right_wildcard",
     "room_add_self_admin",
+    // rows around the size limit (C12 only, on the initial definition): signed size = limit + offset
+    "create_P_size_m144",
+    "create_P_size_m96",
+    "create_P_size_m48",
+    "create_P_size_p0",
+    "create_P_size_p48",
+    "create_P_size_p96",
+    "create_P_size_p144",
 ];
+/// `max_object_size_in_kb` of the default configuration, in bytes
+pub const SIZE_LIMIT: i64 = 256 * 1024;
 
 pub struct Ctx<'a> {
     pub u: &'a Universe,
@@ -460,6 +470,21 @@ impl<'a> Ctx<'a> {
                 is_room_op = Some(ev);
                 (t, p)
             }
+            size_op if size_op.starts_with("create_P_size_") => {
+                needs.push(need(Rm::R1, "ns.P", Right::Own));
+                let off: i64 = {
+                    let t = &size_op["create_P_size_".len()..];
+                    let n: i64 = t[1..].parse().map_err(|_| format!("bad size op {}", size_op))?;
+                    if t.starts_with('m') { -n } else { n }
+                };
+                // every ASCII character of the name adds one byte to the signed, serialised row
+                let base = bincode::serialized_size(&u.make_p(Some(self.r1.id), x, self.now, "")).map_err(|e| e.to_string())? as i64;
+                let len = (SIZE_LIMIT + off - base).max(0) as usize;
+                (
+                    "mutate { ns.P { room_id:$r name:$n } }".into(),
+                    params(&[pr("r", b64(&self.r1.id)), pr("n", "s".repeat(len))]),
+                )
+            }
             other => return Err(format!("unknown op {}", other)),
         };
         Ok(Prepared { text, params: p, del, needs, forbidden, is_room_op })
@@ -552,6 +577,9 @@ pub async fn explore_history(
             for op in OPS {
                 if x == 0 && op.starts_with("room_") {
                     continue; // creator's definition changes are the transitions themselves
+                }
+                if op.starts_with("create_P_size_") {
+                    continue; // the size limit is the same on both paths: C12's subject
                 }
                 let peer = &u.peers[x];
                 let pre = ctx.prepare_op(x, op).await?;
